@@ -411,8 +411,11 @@ package stun
 // ---- checkers ----
 
 //@ func newHMAC
+//@   safety C04 C18
 //@   props C04 C18
-//@   assigns buf[len(buf):min(cap(buf), len(buf)+20)]
+//@   uses hmacsha1_def
+//@   requires region(key) != region(buf) || len(key) == 0
+//@   assigns buf[len(buf):min(cap(buf), len(buf)+20)], gmap(hstate)
 //@   allocates
 //@   ensures len(result) == len(buf) + 20
 //@   ensures (region(result) == region(buf) && off(result) == off(buf) && len(buf) + 20 <= cap(buf)) || fresh(result)
@@ -434,7 +437,7 @@ package stun
 //@   safety C07 C04
 //@   props C07
 //@   requires msg != nil && DecodedViews(msg) && DecodedContent(msg) && region(i) != region(msg.Raw)
-//@   assigns msg.Length, mem(msg.Raw)
+//@   assigns msg.Length, mem(msg.Raw), gmap(hstate)
 //@   allocates
 //@   ensures msg.Length == old(msg.Length) && sameslice(msg.Raw, old(msg.Raw))
 //@   ensures forall(i, 0, len(msg.Raw), msg.Raw[i] == old(msg.Raw[i]))
@@ -849,7 +852,7 @@ package stun
 //@   safety C04 C03 C09
 //@   props C04 C03 C09 C08
 //@   requires msg != nil && len(msg.Raw) == 20 + msg.Length && Fits(msg, 20) && region(i) != region(msg.Raw)
-//@   assigns msg.Raw, msg.Length, msg.Attributes, mem(msg.Raw), mem(msg.Attributes)
+//@   assigns msg.Raw, msg.Length, msg.Attributes, mem(msg.Raw), mem(msg.Attributes), gmap(hstate)
 //@   allocates
 //@   ensures result == nil <==> !old(Has(msg, 0x8028))
 //@   ensures result != nil ==> Unchanged(msg)
@@ -1102,3 +1105,22 @@ package stun
 //@   pure
 //@   allocates
 //@   ensures result1 == nil && fresh(result0) && bytes_eq(result0, m.Raw)
+
+//@ func writeOrPanic
+//@   transparent
+
+// RFC 5389 section 15.4: long-term key = MD5(username ":" realm ":" password); short-term key = password.
+//@ func NewLongTermIntegrity
+//@   safety C04
+//@   props C04
+//@   assigns gmap(hstate)
+//@   allocates
+//@   ensures len(result) == 16 && fresh(result)
+//@   ensures forall(j, 0, 16, result[j] == digbyte(3, seqapp(0, strdata(strcat(strcat(strcat(strcat(username, ":"), realm), ":"), password))), j))
+
+//@ func NewShortTermIntegrity
+//@   safety C04
+//@   props C04
+//@   pure
+//@   allocates
+//@   ensures bytes_eq(result, strdata(password))
